@@ -132,6 +132,7 @@ pub fn get(prop: &str, tier: &str) -> Option<Check> {
                 batches.push(Batch { name: "ffi_client", f: scen::ffi::run_client, cfg: cfg(Mode::LockStep, false, 0), runs: n(10_000, 300_000), real: REAL_FFI, stub: STUB_FFI });
             }
             if p == "C11" {
+                batches.push(Batch { name: "mbap_chunking_client_delays", f: scen::client_chunk::run, cfg: cfg(Mode::LockStep, true, 0), runs: n(20_000, 600_000), real: REAL_CLIENT_TCP, stub: STUB_CLIENT_TCP });
                 batches.push(Batch { name: "client_txid_wrap", f: scen::client::run_lockstep, cfg: cfg(Mode::LockStep, false, 1), runs: n(2, 16), real: REAL_CLIENT_TCP, stub: STUB_CLIENT_TCP });
             }
             Check { prop: p, rule_text: text, batches, assumptions: vec!["lock-step runs use the canonical schedule (FIFO ready queue, select! start index 0) for which the exact model is defined; free interleavings are explored by the racy batches"] }
@@ -173,6 +174,7 @@ pub fn get(prop: &str, tier: &str) -> Option<Check> {
             prop: "C16",
             rule_text: "each run: a filter from {Any, Exact, AnyOf(1-4), wildcard over the octet lattice {0,1,10,127,128,192,254,255,*}} and 1-6 peers with source addresses from the same lattice +-1 octet, IPv6 loopback/ULA and v4-mapped v6; a non-matching peer must receive zero bytes, see EOF and reach no handler, a matching peer must be served; 4 wildcard strings per run from the grammar of well- and ill-formed forms against the parser. Distinct = hash of filter and peer addresses.",
             batches: vec![
+                Batch { name: "filter_tcp_accept_errors", f: scen::sessions::run_filter_tcp, cfg: cfg(Mode::LockStep, true, 0), runs: n(20_000, 600_000), real: REAL_SERVER_TCP, stub: STUB_SERVER_TCP },
                 Batch { name: "filter_tcp_rust_api", f: scen::sessions::run_filter_tcp, cfg: cfg(Mode::LockStep, false, 0), runs: n(100_000, 3_000_000), real: REAL_SERVER_TCP, stub: STUB_SERVER_TCP },
                 Batch { name: "filter_ffi_tcp", f: scen::ffi::run_server, cfg: cfg(Mode::LockStep, false, 0), runs: n(30_000, 1_000_000), real: REAL_FFI, stub: STUB_FFI },
                 Batch { name: "filter_ffi_tls", f: scen::ffi::run_server, cfg: cfg(Mode::LockStep, false, 1), runs: n(4_000, 150_000), real: REAL_FFI, stub: STUB_FFI },
